@@ -1,6 +1,7 @@
-import importlib.util as _u, os as _o
-def _blk():
-    p=_o.path.join(_o.path.dirname(_o.path.dirname(_o.path.abspath(__file__))),'block','jobs_common.py'); sp=_u.spec_from_file_location('blk',p); m=_u.module_from_spec(sp); sp.loader.exec_module(m); return m
+import sys,os
+sys.path.insert(0,os.path.dirname(os.path.dirname(os.path.abspath(__file__))))
+from jobs_lib import vf,blk,other
 def jobs(tier):
-    return [j for j in _blk().blockin_jobs(tier) if 'hs1' in j.name]
-CLAIM=None
+    return vf(tier,'C20')+blk(tier,lambda j:'hs1' in j.name)
+CLAIM={'text':'Inductive-step model checking of the half-rate arithmetic in the decoder accumulator (samples per block = (lW/4+W/4)>>1, full-rate granule bookkeeping, trims use extra>>hs) and bounded model checking of ov_halfrate (refusal rolls every link back to full rate, decode machine dumped, position re-established) and of sample seeks landing on even positions.',
+ 'note':'Trusted: contract stubs for the dsp in ov_halfrate; block sizes listed per job. Bound: page positions and link lengths even under half rate (odd ones make later positions odd: observation D17). Bit-identity of audio after toggling is not executed.'}
